@@ -83,6 +83,15 @@ def random_sd7():
                      S.floats(0, 0.01), S.floats(0, 0.01), S.floats(0, 0.01)).map(list)
 
 
+_U = S.floats(-1.0, 1.0)
+
+
+def unit(draw):
+    """A float in [-1, 1] without the subnormal-range values Hypothesis likes (their squares underflow)."""
+    v = draw(_U)
+    return 0.0 if abs(v) < 1e-6 else v
+
+
 @st.composite
 def psd3(draw):
     """Symmetric positive semi-definite 3x3 (full rank, rank 2, rank 1, diagonal, zero), scales 1e-8 .. 1."""
@@ -91,10 +100,10 @@ def psd3(draw):
     if kind == "zero":
         return [[0.0] * 3 for _ in range(3)]
     if kind == "diag":
-        d = [draw(S.floats(0.0, 1.0)) * scale for _ in range(3)]
+        d = [abs(unit(draw)) * scale for _ in range(3)]
         return [[d[0], 0.0, 0.0], [0.0, d[1], 0.0], [0.0, 0.0, d[2]]]
     ncol = {"full": 3, "rank2": 2, "rank1": 1, "illcond": 3}[kind]
-    A = np.array([[draw(S.floats(-1.0, 1.0)) for _ in range(ncol)] for _ in range(3)])
+    A = np.array([[unit(draw) for _ in range(ncol)] for _ in range(3)])
     if kind == "illcond":
         A = A @ np.diag([1.0, 1e-2, 1e-4])
     V = (A @ A.T) * scale
